@@ -134,10 +134,14 @@ macro_rules! run_ty {
                         }
                         obs(6, &v)
                     }
-                    "new" => match $T::new(rep(a[0])) {
-                        None => obs(0, &[]),
-                        Some(x) => obs(1, &[x.inner() as i64]),
-                    },
+                    "new" => {
+                        let v = rep(a[0]);
+                        match catch15(|| $T::new(v).map(|x| x.inner() as i64)) {
+                            Ok(None) => obs(0, &[]),
+                            Ok(Some(x)) => obs(1, &[x]),
+                            Err(c) => obs(8, &[c]),
+                        }
+                    }
                     "from" => {
                         let v = rep(a[0]);
                         res(catch15(|| $T::from(v).inner() as i64))
